@@ -177,6 +177,47 @@ func init() {
 	}
 }
 
+func init() {
+	// a history of operations on one list, called directly; one observation per step
+	implOps["list_history"] = func(a []string) []string {
+		sl := parseListArg(a[0])
+		if len(sl.Signatures) == 0 {
+			sl = signature.NewSignatureList(sl.SignatureType)
+		}
+		var obs []string
+		if a[1] == "" {
+			return []string{""}
+		}
+		for opIdx, op := range strings.Split(a[1], "&") {
+			f := strings.Split(op, "~")
+			o, d := parseGuidArg(f[1]), unhx(f[2])
+			if len(d) == 0 && opIdx%2 == 1 {
+				d = nil
+			}
+			ok, found, idx := true, false, 0
+			switch f[0] {
+			case "a":
+				// both spellings of the operation
+				if opIdx%2 == 0 {
+					ok = sl.AppendBytes(o, d) == nil
+				} else {
+					ok = sl.AppendSignature(signature.SignatureData{Owner: o, Data: d}) == nil
+				}
+			case "r":
+				if opIdx%2 == 0 {
+					ok = sl.RemoveBytes(o, d) == nil
+				} else {
+					ok = sl.RemoveSignature(signature.SignatureData{Owner: o, Data: d}) == nil
+				}
+			case "q":
+				found, idx = sl.Exists(&signature.SignatureData{Owner: o, Data: d})
+			}
+			obs = append(obs, b01(ok)+"~"+listArg(sl)+"~"+b01(found)+"~"+fmt.Sprint(idx))
+		}
+		return []string{strings.Join(obs, "&"), listArg(sl)}
+	}
+}
+
 func answerOracle(c *Ctx, kind string, args []string) string {
 	switch kind {
 	case "pem":
